@@ -23,6 +23,8 @@ THEOREMS = {
                               'RsomeV.C02Conic.compact_layout_needs_free_tails'],
     'RsomeV.Props.Lmi': ['RsomeV.Lmi.psd_trace_mul_nonneg', 'RsomeV.Lmi.lmi_dual_gap', 'RsomeV.Lmi.lmi_dual_weak', 'RsomeV.Lmi.lmi_dual_weak_symDual',
                          'RsomeV.Lmi.lmi_dual_weak_symPrimal', 'RsomeV.Lmi.legacy_lmi_dual_not_weak', 'RsomeV.Lmi.ng_repaired_weak', 'RsomeV.Lmi.ng_repaired_tight'],
+    'RsomeV.Props.C08Exp': ['RsomeV.C08Exp.exp_cone_dual', 'RsomeV.C08Exp.exp_cone_selfdual_iff', 'RsomeV.C08Exp.conic_strong_duality_exp', 'RsomeV.C08Exp.cone_dual_strong_exp',
+                            'RsomeV.C08Exp.cone_dual_strong_exp_only', 'RsomeV.C08Exp.cone_dual_strong_exp_attained'],
 }
 RULE = ("random deterministic / ro models built through the public API with every bound pattern per variable "
         "(free, >=0, <=0, finite lower, finite upper, both, fixed zero, fixed non-zero), <=, >=, == rows, "
